@@ -760,6 +760,14 @@ func headerDecodeChecksFiltered(c *Ctx, rule string, onlyC01 bool, filter func(n
 				dom:    with(old(), map[string]Dom{"ext": {W: 31, Hi: -1}, "len": {W: 24, Hi: -1}, "type": {W: 8, Hi: -1}}),
 				spec:   abs.Cat(abs.ConstBytes(0xff, 0xff, 0xff), abs.Pack(abs.F("len", 23, 0)), abs.Pack(abs.F("type", 7, 0)), abs.Pack(abs.X(1), abs.F("ext", 30, 0))),
 				fields: map[string]Want{"header.Timestamp": {Atom: sum(hTs, "ext"), Width: 31}, "consumed": {Const: cst(11)}}},
+			hdrCase{name: "type2,extended-timestamp-is-a-delta", format: 2, fresh: true, known: true,
+				dom:    with(old(), map[string]Dom{"ext": {W: 31, Hi: -1}}),
+				spec:   abs.Cat(abs.ConstBytes(0xff, 0xff, 0xff), abs.Pack(abs.X(1), abs.F("ext", 30, 0))),
+				fields: map[string]Want{"header.Timestamp": {Atom: sum(hTs, "ext"), Width: 31}, "consumed": {Const: cst(7)}}},
+			hdrCase{name: "type3,new-message,extended-timestamp-is-a-delta", format: 3, fresh: true, known: true,
+				dom: with(old(), map[string]Dom{"ext": {W: 31, Hi: -1}}), bind: map[string]int64{"chunk.extendedTimestamp": 1},
+				spec:   abs.Pack(abs.X(1), abs.F("ext", 30, 0)),
+				fields: map[string]Want{"header.Timestamp": {Atom: sum(hTs, "ext"), Width: 31}, "consumed": {Const: cst(4)}}},
 			// rejections
 			hdrCase{name: "reject:fresh-stream,type1,csid!=2", format: 1, fresh: true, dom: with(old(), map[string]Dom{"chunk.count": {W: 32, Hi: -1}, "chunk.cid": {W: 16, Lo: 3, Hi: -1}}),
 				bind: map[string]int64{"chunk.count": 0}, expErr: true, fields: map[string]Want{"consumed": {Const: cst(0)}}},
@@ -868,7 +876,7 @@ func runC02(c *Ctx) {
 	R.Require("C02.inherit", 7)
 	R.Require("C02.reject", 6)
 	R.Require("C02.field-unset", 5)
-	R.Require("C02.ts-additive", 1)
+	R.Require("C02.ts-additive", 3)
 	R.Require("C02.complete", 2)
 	R.Require("C02.bound", 1)
 
